@@ -310,6 +310,43 @@ impl C14 {
             let r = tcp.calc_checksum_ipv4_raw([1, 2, 3, 4], [5, 6, 7, 8], p);
             let mut v = Verdict { rep, api: "TcpHeader::calc_checksum_ipv4_raw" };
             v.too_big(len, limit4, r.map(|_| None).map_err(|e| (e.actual, e.max_allowed)), true);
+            // the slice doors have their own copies of the limit
+            {
+                let hb = tcp.to_bytes();
+                let hs = TcpHeaderSlice::from_slice(&hb).unwrap();
+                let ip4b = ip4.to_bytes();
+                let ip4s = Ipv4HeaderSlice::from_slice(&ip4b).unwrap();
+                let r = hs.calc_checksum_ipv4(&ip4s, p);
+                let mut v = Verdict { rep, api: "TcpHeaderSlice::calc_checksum_ipv4" };
+                v.too_big(len, limit4, r.map(|_| None).map_err(|e| (e.actual, e.max_allowed)), true);
+                let r = hs.calc_checksum_ipv4_raw([1, 2, 3, 4], [5, 6, 7, 8], p);
+                let mut v = Verdict { rep, api: "TcpHeaderSlice::calc_checksum_ipv4_raw" };
+                v.too_big(len, limit4, r.map(|_| None).map_err(|e| (e.actual, e.max_allowed)), true);
+                // an accepted length is encoded exactly: same checksum as the struct door (which C09 judges against the RFC)
+                if len <= limit4 {
+                    let a = tcp.calc_checksum_ipv4_raw([1, 2, 3, 4], [5, 6, 7, 8], p).ok();
+                    let b = hs.calc_checksum_ipv4_raw([1, 2, 3, 4], [5, 6, 7, 8], p).ok();
+                    let want = crate::refmodel::checksum::tcp_v4([1, 2, 3, 4], [5, 6, 7, 8], &hb, p);
+                    rep.evals += 1;
+                    if a != want || b != want {
+                        rep.violation(
+                            "pseudo_header_length_not_encoded_exactly|TcpHeader(Slice)::calc_checksum_ipv4_raw",
+                            format!("TCP segment of {} + {} bytes over IPv4: struct door {:?}, slice door {:?}, reference {:?}", hl, len, a, b, want),
+                            &[],
+                        );
+                    } else {
+                        rep.count("pseudo4_exact");
+                    }
+                }
+                if len <= 70_000 {
+                    let mut seg = hb.to_vec();
+                    seg.extend_from_slice(p);
+                    let ts = TcpSlice::from_slice(&seg).unwrap();
+                    let r = ts.calc_checksum_ipv4([1, 2, 3, 4], [5, 6, 7, 8]);
+                    let mut v = Verdict { rep, api: "TcpSlice::calc_checksum_ipv4" };
+                    v.too_big(len, limit4, r.map(|_| None).map_err(|e| (e.actual.saturating_sub(hl), e.max_allowed.saturating_sub(hl))), true);
+                }
+            }
             let mut th = TransportHeader::Tcp(tcp.clone());
             let before = th.clone();
             let r = th.update_checksum_ipv4(&ip4, p);
